@@ -174,6 +174,19 @@ def run(ctx):
             if np.ptp(q[:, 1]) > 0 and np.all(np.diff(q[:, 0]) > 0):
                 pts, fam = q, fam + '@integer'
         one(ctx, pts, dx, dy, dz, x_max, y_range, fam)
+    long_cases(ctx)
+
+
+def long_cases(ctx):
+    """LONG curves (beyond 1024 / 4096 points; many outlier candidates per round)"""
+    rng = ctx.rng
+    for _ in range(3 if ctx.tier == 'quick' else 30):
+        n = rng.choice([rng.randrange(1100, 2000), rng.randrange(4097, 5000)])
+        xs = np.arange(n, dtype=float)
+        ys = np.round(4096.0 * np.exp(-rng.choice([0.001, 0.003]) * xs)) / 4096.0
+        for _j in range(rng.randrange(5, 40)):
+            ys[rng.randrange(5, n - 5):] *= rng.choice([0.5, 0.75, 0.875])            # cliffs: second-derivative outliers
+        one(ctx, np.column_stack([xs, ys]), rng.choice([0.01, 0.02, 0.05]), rng.choice([0.01, 0.05]), rng.choice([0.5, 0.25, 0.1]), None, None, 'long-cliffs', False)
 
 
 def replay(ctx, body):
